@@ -205,8 +205,9 @@ class SingleDeletionSweep(Contract):
     variant = "single-deletions"
     symbolic = False
     has_native = True
+    native_shards = 8
     props = ("C19",)
-    bounded_scope = "one reference file (nested groups, points, curve with property group, float/text/referenced data with colour/value maps): every single deletion of an optional attribute, of the Root link, of a property-group block, of a colour/value map, of an attribute of a colour/value map and of an empty child container; plus single deletions of mandatory items (type link, identifier, primitive type): an error or exactly the described entities left out; unaffected entities compared with the intact file"
+    bounded_scope = "one reference file (nested groups, points, curve with property group, 2-D grid, block model, surface and octree with cell data, float/text/referenced/boolean data with colour/value maps): every single deletion of an optional attribute, of the Root link, of a property-group block, of a colour/value map, of an attribute of a colour/value map and of an empty child container; plus single deletions of mandatory items (type link, identifier, primitive type): an error or exactly the described entities left out; unaffected entities compared with the intact file"
 
     def _build(self, path):
         from geoh5py.groups import ContainerGroup
@@ -230,6 +231,18 @@ class SingleDeletionSweep(Contract):
             a = c.add_data({"a": {"values": np.arange(4.0)}})
             b = c.add_data({"b": {"values": np.array([1, 2, 1, 2], dtype="uint32"), "type": "referenced", "value_map": {1: "x", 2: "y"}}})
             c.add_data_to_group([a, b], "grp")
+            c.add_data({"flag": {"values": np.array([True, False, True, True]), "type": "boolean"}})
+            # objects whose own (optional) attributes decide how many entries their data have
+            from geoh5py.objects import BlockModel, Grid2D, Octree, Surface
+
+            gr = Grid2D.create(ws, name="grid", origin=[1.0, 2.0, 3.0], u_cell_size=2.0, v_cell_size=3.0, u_count=3, v_count=2, rotation=30.0, dip=10.0, parent=g1)
+            gr.add_data({"gval": {"values": np.arange(6.0)}})
+            bm = BlockModel.create(ws, name="blocks", origin=[0.0, 0.0, 0.0], u_cell_delimiters=np.arange(3.0), v_cell_delimiters=np.arange(3.0), z_cell_delimiters=np.arange(2.0), parent=g1)
+            bm.add_data({"bval": {"values": np.arange(4.0)}})
+            sf = Surface.create(ws, name="tin", vertices=np.arange(12.0).reshape(4, 3), cells=np.array([[0, 1, 2], [1, 2, 3]], dtype="uint32"), parent=g2)
+            sf.add_data({"sval": {"values": np.arange(2.0), "association": "CELL"}})
+            oc = Octree.create(ws, name="tree", origin=[0.0, 0.0, 0.0], u_count=2, v_count=2, w_count=2, u_cell_size=1.0, v_cell_size=1.0, w_cell_size=1.0, parent=g2)
+            oc.add_data({"oval": {"values": np.arange(oc.n_cells, dtype=float)}})
 
     def _snapshot(self, path):
         from contracts.histories import tree_snapshot
@@ -238,7 +251,7 @@ class SingleDeletionSweep(Contract):
         with Workspace(path, mode="r") as ws:
             return tree_snapshot(ws)
 
-    NAMES = ("site", "sub_site", "stations", "line", "grav", "grav2", "grav3", "note", "a", "b")
+    NAMES = ("site", "sub_site", "stations", "line", "grav", "grav2", "grav3", "note", "a", "b", "flag", "grid", "gval", "blocks", "bval", "tin", "sval", "tree", "oval")
 
     @staticmethod
     def _find(f, name):
@@ -278,7 +291,7 @@ class SingleDeletionSweep(Contract):
                             targets.append({"kind": "type-attr", "entity": name, "attr": k})
                     for sub in ("Color map", "Value map"):
                         if sub in t:
-                            targets.append({"kind": "type-member", "entity": name, "member": sub})
+                            always.append({"kind": "type-member", "entity": name, "member": sub})  # few, and each with its own reader branch: never sampled away
                             for k in t[sub].attrs:
                                 always.append({"kind": "type-member-attr", "entity": name, "member": sub, "attr": k})
                     # mandatory items: the reader may raise, or leave out exactly what the item describes
@@ -288,8 +301,7 @@ class SingleDeletionSweep(Contract):
                         always.append({"kind": "mandatory-type-attr", "entity": name, "attr": "Primitive type" if name in ("grav", "a") else "ID"})
         finally:
             shutil.rmtree(d, ignore_errors=True)
-        step = 1 if tier == "thorough" else max(1, len(targets) // 40)
-        for t in targets[::step] + always:
+        for t in targets + always:  # every single deletion, in both tiers (a few hundred small files)
             yield t
 
     def native_check(self, case):
